@@ -48,6 +48,8 @@ func main() {
 		runCatalogue()
 	case "demo-scan-short":
 		demoScanShort()
+	case "rpc":
+		runRPC(seed, tier)
 	case "pd":
 		runPD(seed, tier)
 	case "e2e":
